@@ -507,7 +507,7 @@ func nodeGen(r *rand.Rand, tier string, prop string) []Case {
 		c := Case{fmt.Sprintf("world # seed=%d", r.Intn(1_000_000))}
 		c = append(c, "blk # dt=6 txs=deploy.0|eth.1.5|bhdeploy.1")
 		c = append(c, "blk # dt=6 txs=fundpup.0.1000000000000000|approve.1|approve.2|mdeleg.3.100000000000000000|mdeleg.1.100000000000000000|mdeleg.2.100000000000000000")
-		c = append(c, "blk # dt=6 txs=vest.4.5.6000000000000000000000|codeless.2")
+		c = append(c, "blk # dt=6 txs=vest.4.5.9000000000000000000000|codeless.2")
 		var liqTo []int
 		swapAt := 2 + r.Intn(blocks-6)
 		swapped := "bech32" // the extension that is inactive
@@ -627,10 +627,15 @@ func nodeGen(r *rand.Rand, tier string, prop string) []Case {
 		}
 		if prop == "C19" || prop == "C15" {
 			// a DAO holder with two denominations: liquidate to key 1, fund the DAO with the liquid and the base denomination
-			if len(liqTo) < 4 {
+			nl := len(liqTo)
+			if nl < 4 {
 				c = append(c, "blk # dt=6 txs=liq.5.1.1000000000000000000000")
-				c = append(c, fmt.Sprintf("blk # dt=6 txs=cvt.1.%d.9000000000000000000|daoliq.1.%d.5000000000000000000|cvtback.1.%d.1000000000000000000|daoxfer.1.2", len(liqTo), len(liqTo), len(liqTo)))
+				c = append(c, fmt.Sprintf("blk # dt=6 txs=cvt.1.%d.9000000000000000000|daoliq.1.%d.5000000000000000000|cvtback.1.%d.1000000000000000000|daoxfer.1.2", nl, nl, nl))
+				nl++
 			}
+			// a liquid denomination redeemed in full: its token pair stays registered but conversion is switched off
+			c = append(c, "blk # dt=6 txs=liq.5.2.1000000000000000000000")
+			c = append(c, fmt.Sprintf("blk # dt=6 txs=redeem.2.3.%d.1000000000000000000000", nl))
 		}
 		if prop == "C19" {
 			c = append(c, "export")
